@@ -7,6 +7,7 @@ use crate::gen::{self, GenOpts};
 use crate::json::J;
 use crate::mon::{guard, scale, Check, Ctx, Phase, Tier};
 use crate::rcbor::hex;
+use coset::iana;
 use coset::{CborSerializable, EncryptionContext, TaggedCborSerializable};
 
 pub struct C06;
@@ -33,7 +34,22 @@ fn uid(ctx: &mut Ctx, k: &mut u32) -> Vec<u8> {
 fn header(ctx: &mut Ctx) -> coset::Header {
     let o = GenOpts::built();
     loop {
-        let h = gen::gen_header(&mut ctx.rng, &o, 1);
+        let mut h = gen::gen_header(&mut ctx.rng, &o, 1);
+        match ctx.rng.below(8) {
+            0 => {
+                // only extension parameters
+                let rest = if h.rest.is_empty() { vec![(crate::model::MLabel::Int(-70001), crate::rcbor::Item::int(1))] } else { h.rest.clone() };
+                h = crate::model::MHeader::default();
+                h.rest = rest;
+            }
+            1 => {
+                // only counter signatures
+                let cs = if h.csigs.is_empty() { vec![crate::model::MSignature::default()] } else { h.csigs.clone() };
+                h = crate::model::MHeader::default();
+                h.csigs = cs;
+            }
+            _ => {}
+        }
         if let Some(c) = capi::b_header(&h) {
             return c;
         }
@@ -65,6 +81,37 @@ fn other_than(ctx: &mut Ctx, b: &[u8]) -> Vec<u8> {
         _ => v.insert(0, 0x5a),
     }
     v
+}
+
+/// change one thing in a protected header (the retained bytes are dropped, as a caller who edits
+/// the parsed header must do)
+fn perturb_protected(ctx: &mut Ctx, p: &mut coset::ProtectedHeader) -> &'static str {
+    p.original_data = None;
+    match ctx.rng.below(5) {
+        0 => {
+            p.header.key_id = other_than(ctx, &p.header.key_id.clone());
+            "body protected header (key id)"
+        }
+        1 => {
+            p.header.rest.push((coset::Label::Int(-70002 - ctx.rng.below(5) as i64), coset::cbor::value::Value::Bool(true)));
+            "body protected header (extra parameter added)"
+        }
+        2 if !p.header.rest.is_empty() => {
+            p.header.rest[0].1 = coset::cbor::value::Value::Text("changed".into());
+            "body protected header (extra parameter value)"
+        }
+        3 => {
+            p.header.counter_signatures.push(coset::CoseSignature::default());
+            "body protected header (counter signature added)"
+        }
+        _ => {
+            p.header.alg = match p.header.alg {
+                Some(coset::Algorithm::Assigned(iana::Algorithm::ES256)) => Some(coset::Algorithm::Assigned(iana::Algorithm::ES384)),
+                _ => Some(coset::Algorithm::Assigned(iana::Algorithm::ES256)),
+            };
+            "body protected header (algorithm)"
+        }
+    }
 }
 
 fn bad(ctx: &mut Ctx, class: &str, detail: String, hist: &[String]) {
@@ -295,10 +342,9 @@ fn sign1_history(ctx: &mut Ctx) {
         check_perturbed(ctx, "Sign1", "payload", seen.map(|x| x.1), &rec, &hist);
     }
     let mut m3 = m.clone();
-    m3.protected.original_data = None;
-    m3.protected.header.key_id = other_than(ctx, &m.protected.header.key_id);
+    let what = perturb_protected(ctx, &mut m3.protected);
     let (seen, _) = run(&m3, &rec.aad, &rec.detached, None);
-    check_perturbed(ctx, "Sign1", "body protected header", seen.map(|x| x.1), &rec, &hist);
+    check_perturbed(ctx, "Sign1", what, seen.map(|x| x.1), &rec, &hist);
 }
 
 fn sign_history(ctx: &mut Ctx) {
@@ -466,15 +512,13 @@ fn sign_history(ctx: &mut Ctx) {
         let (seen, _) = run(&m, i, &aad2, &rec.detached);
         check_perturbed(ctx, "Sign", "external AAD", seen.map(|x| x.1), rec, &hist);
         let mut m2 = m.clone();
-        m2.signatures[i].protected.original_data = None;
-        m2.signatures[i].protected.header.key_id = other_than(ctx, &m.signatures[i].protected.header.key_id);
+        let _ = perturb_protected(ctx, &mut m2.signatures[i].protected);
         let (seen, _) = run(&m2, i, &rec.aad, &rec.detached);
         check_perturbed(ctx, "Sign", "that signer's protected header", seen.map(|x| x.1), rec, &hist);
         let mut m3 = m.clone();
-        m3.protected.original_data = None;
-        m3.protected.header.key_id = other_than(ctx, &m.protected.header.key_id);
+        let what = perturb_protected(ctx, &mut m3.protected);
         let (seen, _) = run(&m3, i, &rec.aad, &rec.detached);
-        check_perturbed(ctx, "Sign", "body protected header", seen.map(|x| x.1), rec, &hist);
+        check_perturbed(ctx, "Sign", what, seen.map(|x| x.1), rec, &hist);
         if let Some(p) = &rec.detached {
             let p2 = Some(other_than(ctx, p));
             let (seen, _) = run(&m, i, &rec.aad, &p2);
@@ -688,22 +732,21 @@ fn mac_history(ctx: &mut Ctx, is0: bool) {
     };
     let (seen, _) = run(&m2, &rec.aad, None);
     check_perturbed(ctx, fam, "payload", seen.map(|x| x.1), &rec, &hist);
+    let what;
     let m3 = match &m {
         M::M(x) => {
             let mut y = x.clone();
-            y.protected.original_data = None;
-            y.protected.header.key_id = other_than(ctx, &x.protected.header.key_id);
+            what = perturb_protected(ctx, &mut y.protected);
             M::M(y)
         }
         M::M0(x) => {
             let mut y = x.clone();
-            y.protected.original_data = None;
-            y.protected.header.key_id = other_than(ctx, &x.protected.header.key_id);
+            what = perturb_protected(ctx, &mut y.protected);
             M::M0(y)
         }
     };
     let (seen, _) = run(&m3, &rec.aad, None);
-    check_perturbed(ctx, fam, "body protected header", seen.map(|x| x.1), &rec, &hist);
+    check_perturbed(ctx, fam, what, seen.map(|x| x.1), &rec, &hist);
 }
 
 fn rcp_ctx(i: usize) -> EncryptionContext {
@@ -911,28 +954,26 @@ fn enc_history(ctx: &mut Ctx, kind: usize) {
         let (seen, _) = run(&m, (rc + 1) % 3, &rec.aad, Ok(vec![]));
         check_perturbed(ctx, fam, "recipient context", seen.map(|x| x.1), &rec, &hist);
     }
+    let what;
     let m3 = match &m {
         M::E(x) => {
             let mut y = x.clone();
-            y.protected.original_data = None;
-            y.protected.header.key_id = other_than(ctx, &x.protected.header.key_id);
+            what = perturb_protected(ctx, &mut y.protected);
             M::E(y)
         }
         M::E0(x) => {
             let mut y = x.clone();
-            y.protected.original_data = None;
-            y.protected.header.key_id = other_than(ctx, &x.protected.header.key_id);
+            what = perturb_protected(ctx, &mut y.protected);
             M::E0(y)
         }
         M::R(x) => {
             let mut y = x.clone();
-            y.protected.original_data = None;
-            y.protected.header.key_id = other_than(ctx, &x.protected.header.key_id);
+            what = perturb_protected(ctx, &mut y.protected);
             M::R(y)
         }
     };
     let (seen, _) = run(&m3, rc, &rec.aad, Ok(vec![]));
-    check_perturbed(ctx, fam, "body protected header", seen.map(|x| x.1), &rec, &hist);
+    check_perturbed(ctx, fam, what, seen.map(|x| x.1), &rec, &hist);
 }
 
 impl Check for C06 {
